@@ -86,7 +86,7 @@ def generate(rng, tier):
                 scenario["till"] = start + 50
         elif kind == "leak":
             actors = [_simple_actor(rng, "r%d" % i) for i in range(rng.randint(1, 3))]
-            actors[rng.randrange(len(actors))]["ret"] = 17
+            actors[rng.randrange(len(actors))]["ret"] = rng.choice([17, 17, 0, False, "", [], 0.0])
             scenario = {"start": start, "roots": "direct", "resources": {}, "actors": actors}
         elif kind == "till":
             actors = [_simple_actor(rng, "r%d" % i, length=rng.randint(1, 4))
@@ -111,7 +111,7 @@ def generate(rng, tier):
         # two replications around module-level flags: the first leaves an until-block over a
         # connective of them that never held, the second sets one of the flags
         kind = rng.choice(["and", "or"])
-        first = {"start": 0, "roots": "direct", "share_conditions": True,
+        first = {"start": 0, "roots": "direct", "share_conditions": "history",
                  "resources": {"F1": {"kind": "flag"}, "F2": {"kind": "flag"}},
                  "actors": [{"name": "r0", "ops": [
                      {"op": "scope", "label": "U", "children": [],
@@ -119,7 +119,7 @@ def generate(rng, tier):
                       "body": [{"op": "sleep", "d": rng.choice([0.5, 1, 2])}]},
                      {"op": "now"}]}]}
         setter = "F1" if kind == "and" or rng.random() < 0.5 else "F2"
-        second = {"start": 0, "roots": "direct", "share_conditions": True,
+        second = {"start": 0, "roots": "direct", "share_conditions": "history",
                   "resources": {"F1": {"kind": "flag"}, "F2": {"kind": "flag"}},
                   "actors": [{"name": "r0", "ops": [
                       {"op": "sleep", "d": 1}, {"op": "flag_set", "on": setter, "to": True},
@@ -133,7 +133,7 @@ def generate(rng, tier):
         # replications: the same program again, with its time conditions being the very same
         # objects (a module-level `DEADLINE = time >= 10` used by every replication)
         again = rng.choice(oks)
-        again["scenario"]["share_conditions"] = True
+        again["scenario"]["share_conditions"] = "history"
         runs.insert(rng.randint(runs.index(again) + 1, len(runs)),
                     {"kind": "ok", "scenario": copy.deepcopy(again["scenario"])})
     return {"property": ID, "mode": "history", "runs": runs, "scenario": {"actors": []},
@@ -146,6 +146,9 @@ def _generate_threads(rng):
         r = rng.random()
         if r < 0.4:
             scenario = C01.generate(rng, "quick")["scenario"]
+            # the pool of shared condition objects is process-wide: sharing it between the
+            # threads' simulations would be the harness's interference, not usim's
+            scenario.pop("share_conditions", None)
         elif r < 0.65:
             scenario = C10.generate(rng, "quick")["scenario"]
         else:
